@@ -228,6 +228,87 @@ def lp_two_partitions(p1, p2, p, h, cx=1.0, cy=2.0, lbx=None, lby=None, form='su
     return float(res.fun)
 
 
+def _event_columns(parts):
+    """Column index of the LP variable of decision k in scenario s: one column per (decision, event)."""
+    col, ncol = [], 0
+    for part in parts:
+        blocks = sorted(part, key=min)
+        col.append({s: ncol + j for j, b in enumerate(blocks) for s in b})
+        ncol += len(blocks)
+    return col, ncol
+
+
+def lp_event_decisions(parts, p, cost, rows, erows, lo):
+    """Independent LP (scipy/HiGHS) for K scalar event-wise decisions under fixed scenario probabilities p.
+
+    parts[k]: partition of decision k (one LP variable per event);  v_k(s) = value of decision k in scenario s.
+      min   sum_s p_s sum_k cost[k] v_k(s)
+      s.t.  sum_k a[k] v_k(s) >= rhs[s]              for every scenario s and every (a, rhs) in rows
+            sum_s p_s sum_k a[k] v_k(s) >= rhs       for every (a, rhs) in erows (expectation rows)
+            v_k(s) >= lo[k][s]
+    Returns (optimal value, per-scenario values K x n) or None when the LP is not solved to optimality.
+    """
+    from scipy.optimize import linprog
+    n, K = len(p), len(parts)
+    col, ncol = _event_columns(parts)
+    c = np.zeros(ncol)
+    for s in range(n):
+        for k in range(K):
+            c[col[k][s]] += p[s] * cost[k]
+    A, b = [], []
+    for a, rhs in rows:
+        for s in range(n):
+            row = np.zeros(ncol)
+            for k in range(K):
+                row[col[k][s]] -= a[k]
+            A.append(row)
+            b.append(-float(rhs[s]))
+    for a, rhs in erows:
+        row = np.zeros(ncol)
+        for s in range(n):
+            for k in range(K):
+                row[col[k][s]] -= p[s] * a[k]
+        A.append(row)
+        b.append(-float(rhs))
+    lows = [-np.inf] * ncol
+    for k in range(K):
+        for s in range(n):
+            lows[col[k][s]] = max(lows[col[k][s]], float(lo[k][s]))
+    res = linprog(c, A_ub=np.array(A) if A else None, b_ub=np.array(b) if A else None,
+                  bounds=[(l, None) for l in lows], method='highs')
+    if res.status != 0:
+        return None
+    vals = np.array([[res.x[col[k][s]] for s in range(n)] for k in range(K)])
+    return float(res.fun), vals
+
+
+def check_event_solution(vals, parts, p, cost, rows, erows, lo, tol=1e-6):
+    """Is a *reported* per-scenario solution vals[k][s] a solution of the model of lp_event_decisions?  (pure NumPy)
+
+    Returns (message or None, objective of the reported values): the values must be identical inside every event of
+    parts[k], satisfy every row / bound in every scenario (tolerance tol*(1+|rhs|)).  The caller compares the objective."""
+    vals = np.asarray(vals, dtype=float)
+    n, K = len(p), len(parts)
+    for k in range(K):
+        for b in parts[k]:
+            v = [vals[k][s] for s in sorted(b)]
+            if max(v) - min(v) > tol * (1 + abs(max(v))):
+                return 'decision %d takes different values %s inside the event %s' % (k, v, sorted(b)), None
+        for s in range(n):
+            if vals[k][s] < lo[k][s] - tol * (1 + abs(lo[k][s])):
+                return 'decision %d scenario %d: value %r below its bound %r' % (k, s, vals[k][s], lo[k][s]), None
+    for a, rhs in rows:
+        for s in range(n):
+            lhs = sum(a[k] * vals[k][s] for k in range(K))
+            if lhs < rhs[s] - tol * (1 + abs(rhs[s])):
+                return 'scenario %d: %s . values %s = %r < %r' % (s, list(a), vals[:, s].tolist(), lhs, float(rhs[s])), None
+    for a, rhs in erows:
+        lhs = sum(p[s] * a[k] * vals[k][s] for k in range(K) for s in range(n))
+        if lhs < rhs - tol * (1 + abs(rhs)):
+            return 'expectation row %s: %r < %r' % (list(a), lhs, float(rhs)), None
+    return None, float(sum(p[s] * cost[k] * vals[k][s] for k in range(K) for s in range(n)))
+
+
 # ------------------------------------------------------------------ masks
 def all_masks(rows, cols):
     """Every 0/1 matrix rows x cols as nested lists, all-zero first."""
